@@ -6,6 +6,9 @@ set -u
 prop="$1"; wt="$2"; name="${3:-$prop}"
 export GOFLAGS=-mod=mod GOPROXY=off GOSUMDB=off GOTOOLCHAIN=local
 cd /verif
+mkdir -p .work
+exec 9>.work/repo.lock
+flock 9
 out="seeded/$name"; mkdir -p "$out"
 [ -f "$wt/patch.diff" ] || { echo "no patch.diff in $wt"; exit 2; }
 cp "$wt/patch.diff" "$out/patch.diff"
